@@ -119,6 +119,9 @@ func (lexer *CommonLex) CreateProgram(expr string) (prog []Inst, err error) {
 	errors := fmt.Sprintf("Failed to compile '%s'\n", expr)
 	currentPosInLine :=
 		len(string(expr)) - len(string(lexer.progBldr.lineAtErr))
+	if currentPosInLine < 0 {
+		currentPosInLine = 0
+	}
 	parsedLine := string(expr)[:currentPosInLine]
 	unParsedLine := string(expr)[currentPosInLine:]
 
@@ -156,7 +159,9 @@ func (x *CommonLex) Error(s string) {
 		return
 	}
 	x.progBldr.parseErr = fmt.Errorf("%s", s)
-	if x.peek != xutils.EOF {
+	if x.peek != xutils.EOF && x.peek != xutils.ERR {
+		// (a look-ahead that hit invalid UTF-8 is not a character of the
+		// input and must not be put back in front of the remaining line)
 		x.progBldr.lineAtErr = string(x.peek) + string(x.line)
 	} else {
 		x.progBldr.lineAtErr = string(x.line)
